@@ -274,7 +274,7 @@ pub fn delta_line(uni: &AffUniverse, d: &TxDelta) -> String {
     };
     let gen = if d.tx.memo.starts_with("Automatic SfL ACB adjustment") { 1 } else { 0 };
     format!(
-        "impl delta {} {} {} {} {} {} {} {} {}",
+        "impl delta {} {} {} {} {} {} {} {} {} {}",
         uni.tok(&d.tx.affiliate),
         act,
         status_toks(&d.pre_status),
@@ -283,7 +283,8 @@ pub fn delta_line(uni: &AffUniverse, d: &TxDelta) -> String {
         sfl,
         amt,
         gen,
-        d.tx.read_index
+        d.tx.read_index,
+        jd(d.tx.settlement_date)
     )
 }
 
